@@ -6,10 +6,16 @@
     remaining winners <= balance a winner's claim cannot fail, pays exactly tokens-per-ticket x
     winning and keeps the invariant ([C02_claim_covered]); the owner's withdrawal leaves exactly what
     the remaining winners are owed ([C02_owner_leaves_cover]); the same for the locked variants
-    ([C02_claim_covered_locked]).  The cover invariant for the vested variants and its establishment
-    at deposit time are monitored by the oracle and the correspondence (DESIGN.md). *)
+    ([C02_claim_covered_locked]).  For the vested variants (gt1, gt2): the exact ledger [VInv]
+    (balance = tokens-per-ticket x unsettled winners + what settled winners have not received yet +
+    the owner's surplus) is established by the selection pipeline from an exact deposit
+    ([C02_vested_pipeline]), kept by every vesting claim and by the owner's withdrawal, which pay
+    exactly ([C02_vested_claim], [C02_vested_owner]); neither can fail for lack of tokens
+    ([C02_vested_claim_live], [C02_vested_owner_live]) and nothing is left at the end
+    ([C02_vested_drained]). *)
 From LP Require Import Proofs.Tactics Proofs.LedgerBase Proofs.Gates Proofs.Frames Proofs.Settle Proofs.Confirm Proofs.Reserve Proofs.Ledger
-  Proofs.ClaimLedger Proofs.Lock Proofs.Vesting Proofs.Examples.
+  Proofs.ClaimLedger Proofs.Lock Proofs.Vesting Proofs.Examples
+  Proofs.Resume Proofs.Leftover Proofs.Lifecycle Proofs.VestedCover Proofs.VestedLifecycle.
 Open Scope N_scope.
 
 (** the single deposit: accepted iff nothing was deposited yet and the call value is exactly one
@@ -101,6 +107,85 @@ Theorem C02_owner_leaves_cover : forall e w w' A,
   bal w (caller e) (lp_token (st w)) 0 + bal w sc_addr (lp_token (st w)) 0.
 Proof. exact Cover_owner. Qed.
 
+(** ** the vested contracts (guaranteed-tickets, guaranteed-tickets-v2) *)
+
+(** the ledger of the claim period, stated in full *)
+Theorem C02_vested_ledger : forall v2 w A x, VInv v2 w A x ->
+  bal w sc_addr (lp_token (st w)) 0 =
+    tpt (st w) * nr_winning (st w) + sumN (map (outstanding (st w)) A) + surplus (st w) + x /\
+  (forall a, claimed_balance (st w) a <= total_claimable (st w) a) /\
+  (forall a, claimed (st w) a = false -> total_claimable (st w) a = 0).
+Proof. intros v2 w A x Hv. exact (conj (vi_bal _ _ _ _ Hv) (conj (vi_le _ _ _ _ Hv) (vi_fresh _ _ _ _ Hv))). Qed.
+
+(** established by the pipeline, whatever the interruptions, from an exact deposit that covers
+    base winners + reserved tickets *)
+Theorem C02_vested_pipeline : forall (H : list N -> list N) v2 l w0 lf wf ef bf w1 ls ws es bs w2 sd rest ld wd ed bd w3,
+  PreSel w0 l -> NoDup (gt_users (st w0)) ->
+  after_interrupted filter_tickets lf w0 = Some wf -> filter_tickets ef bf wf = Ok (w1, 0) ->
+  seeds w1 = sd :: rest ->
+  after_interrupted (select_winners H) ls w1 = Some ws -> select_winners H es bs ws = Ok (w2, 0) ->
+  after_interrupted (distribute_guaranteed_tickets H v2) ld w2 = Some wd ->
+  distribute_guaranteed_tickets H v2 ed bd wd = Ok (w3, 0) ->
+  sched_inv v2 (st w0) ->
+  (forall a, total_claimable (st w0) a = 0) -> (forall a, claimed_balance (st w0) a = 0) ->
+  0 < price (st w0) ->
+  bal w0 sc_addr (lp_token (st w0)) 0 = total_deposited (st w0) ->
+  tpt (st w0) * (nr_winning (st w0) + total_reserved v2 (st w0)) <= total_deposited (st w0) ->
+  ClaimInv w3 (map fst l) /\ VInv v2 w3 (map fst l) 0.
+Proof. exact pipeline_gt_vested. Qed.
+
+(** any claim (first or later, any round): both ledgers are kept; the caller receives exactly the
+    decrease of what the contract owes them *)
+Theorem C02_vested_claim : forall v2 e w w' A x,
+  ClaimInv w A -> VInv v2 w A x -> pay_token (st w) <> lp_token (st w) -> caller e <> sc_addr ->
+  claim_vested v2 e w = Ok w' ->
+  ClaimInv w' A /\ VInv v2 w' A x /\ lp_token (st w') = lp_token (st w) /\
+  exists paid,
+    bal w' sc_addr (lp_token (st w)) 0 + paid = bal w sc_addr (lp_token (st w)) 0 /\
+    bal w' (caller e) (lp_token (st w)) 0 = bal w (caller e) (lp_token (st w)) 0 + paid /\
+    owed_to (st w) (caller e) = owed_to (st w') (caller e) + paid.
+Proof. exact VCover_claim. Qed.
+
+(** the owner's withdrawal: exactly the surplus, once *)
+Theorem C02_vested_owner : forall v2 e w w' A x,
+  ClaimInv w A -> VInv v2 w A x -> pay_token (st w) <> lp_token (st w) -> caller e <> sc_addr ->
+  claim_ticket_payment_gt e w = Ok w' ->
+  VInv v2 w' A x /\ surplus (st w') = 0 /\ lp_token (st w') = lp_token (st w) /\
+  bal w' sc_addr (lp_token (st w)) 0 + surplus (st w) = bal w sc_addr (lp_token (st w)) 0 /\
+  bal w' (caller e) (lp_token (st w)) 0 = bal w (caller e) (lp_token (st w)) 0 + surplus (st w).
+Proof. exact VCover_owner. Qed.
+
+(** no lack of tokens: a first claim in the claim period, and a later claim of a winner who is not
+    yet paid in full and has not received more than is released now, succeed; so does the owner *)
+Theorem C02_vested_claim_live : forall v2 e w A x,
+  ClaimInv w A -> VInv v2 w A x -> pay_token (st w) <> lp_token (st w) -> caller e <> sc_addr ->
+  (v2 = true -> paused (st w) = false) ->
+  (claimed (st w) (caller e) = false -> get_launch_stage e (st w) = Claim /\ range (st w) (caller e) <> None) ->
+  (claimed (st w) (caller e) = true -> 0 < total_claimable (st w) (caller e) ->
+   claimed_balance (st w) (caller e) < total_claimable (st w) (caller e) /\
+   claimed_balance (st w) (caller e) <= vested_now v2 e (st w) (total_claimable (st w) (caller e))) ->
+  exists w', claim_vested v2 e w = Ok w'.
+Proof. exact VCover_claim_live. Qed.
+
+Theorem C02_vested_owner_live : forall v2 e w A x,
+  ClaimInv w A -> VInv v2 w A x -> pay_token (st w) <> lp_token (st w) -> caller e <> sc_addr ->
+  get_launch_stage e (st w) = Claim ->
+  exists w', claim_ticket_payment_gt e w = Ok w'.
+Proof. exact VCover_owner_live. Qed.
+
+Theorem C02_vested_drained : forall v2 w A x,
+  VInv v2 w A x -> nr_winning (st w) = 0 -> (forall a, In a A -> outstanding (st w) a = 0) -> surplus (st w) = 0 ->
+  bal w sc_addr (lp_token (st w)) 0 = x.
+Proof. exact VCover_drained. Qed.
+
+(** a concrete gt2 sale meets the invariant at the start of its claim period *)
+Example C02_vested_nonvacuous :
+  VInv true gt2_done [2; 3; 4] 0 /\ get_launch_stage (mkenv 2 31 0 []) (st gt2_done) = Claim /\
+  nr_winning (st gt2_done) = 3 /\
+  (nr_winning (st gt2_claim1), total_claimable (st gt2_claim1) 2, claimed_balance (st gt2_claim1) 2,
+   bal gt2_claim1 sc_addr (lp_token (st gt2_done)) 0) = (2, 100, 100, 200).
+Proof. exact VInv_gt2_done. Qed.
+
 Example C02_nonvacuous :
   let w0 := step_sha Base base0 (mkenv 1 1 0 [], 100%nat, [], CAddTickets [(2, 3); (3, 2)]) in
   (exists w r, exec_sha Base (mkenv 1 2 0 [(1, 0, 200)]) 5 [] w0 CDeposit = Ok (w, r)) /\
@@ -119,4 +204,12 @@ Print Assumptions C02_tpt_frozen.
 Print Assumptions C02_claim_covered.
 Print Assumptions C02_claim_covered_locked.
 Print Assumptions C02_owner_leaves_cover.
+Print Assumptions C02_vested_ledger.
+Print Assumptions C02_vested_pipeline.
+Print Assumptions C02_vested_claim.
+Print Assumptions C02_vested_owner.
+Print Assumptions C02_vested_claim_live.
+Print Assumptions C02_vested_owner_live.
+Print Assumptions C02_vested_drained.
+Print Assumptions C02_vested_nonvacuous.
 Print Assumptions C02_nonvacuous.
